@@ -23,7 +23,10 @@ RULE = ("operator grid: `function f(L a, R b) -> T { return a OP b; }` for 13 op
 EXHAUSTIVE = {"quick": False, "thorough": False}
 ASSUMPTIONS = ["'accepted' = the parser and every AST pass succeed (DESIGN §1); an exception from lowering or an IR pass after that is an internal error",
                "defined run-time failures: ZeroDivisionError, IndexError raised by an indexing opcode; a negative dynamic index is avoided by the inputs",
-               "inputs: ints in a small range, dyadic finite floats, uint >= 0, vectors/matrices/arrays/structs of those"]
+               "inputs: ints in a small range, dyadic finite floats, uint >= 0, vectors/matrices/arrays/structs of those",
+               "the VM model converts every integer to a float (Float.ofInt is total); CPython raises OverflowError for |i| >= 2^1024, which the "
+               "VM's unbounded ints reach after leaving the 32-bit range by a thousand bits (repeated squaring in a loop): such a failure of the "
+               "real VM is reported (known finding) but is not counted against the instance of the typing theorem"]
 TRUSTED = ["harness/implrun.classify_runtime (exception -> class/site)"]
 
 TYPES = ["int", "uint", "float", "int2", "int3", "int4", "float2", "float3", "float4", "uint2", "uint3", "uint4", "float3x3", "float4x4"]
@@ -204,7 +207,7 @@ def run_probe(run, src, ptys, origin, inputs=None):
             run.case((src, opt, k), nontrivial=True, sample=dict(source=src, optimize=opt, args=args, outcome=r[0]) if (len(run.samples) < 3 and "float3x3" in src and opt) else None)
             run.count("outcome:" + r[0])
             if r[0] == "internal":
-                if typed and origin != "nonfinite-cast":
+                if typed and origin != "nonfinite-cast" and r[1] != "OverflowError@CAST":
                     run.mismatch("theorem-instance:C05_typed_ir", dict(inp, args=args), "irTypeCheck accepts the IR", "the real VM fails internally: %s" % (r[1],))
                 fam = origin if origin in ("shape-mismatch", "nonfinite-cast") else "internal:run"
                 run.fail("run-time", dict(inp, args={k: repr(v) for k, v in args.items()}, site=r[1]), "optimize=%s f(%s) fails with %s\n%s" % (opt, args, r[1], src[:300]), key=fam + ":" + r[1])
@@ -232,7 +235,8 @@ def judge_generated(run, rec):
         for j, o in enumerate(obs):
             run.case((src, opt, j), nontrivial=True); run.count("outcome:" + o[0])
             if o[0] == "internal":
-                if typed: run.mismatch("theorem-instance:C05_typed_ir", dict(base, optimize=opt, input_index=j), "irTypeCheck accepts the IR", "the real VM fails internally: %s" % (o[1],))
+                if typed and str(o[1]) != "OverflowError@CAST":      # see ASSUMPTIONS: int -> float of |i| >= 2^1024
+                    run.mismatch("theorem-instance:C05_typed_ir", dict(base, optimize=opt, input_index=j), "irTypeCheck accepts the IR", "the real VM fails internally: %s" % (o[1],))
                 run.fail("run-time", dict(base, optimize=opt, input_index=j, site=o[1]), "optimize=%s input %d fails with %s\n%s" % (opt, j, o[1], src[:800]), key="internal:run:" + str(o[1]))
                 break
 
